@@ -8,6 +8,7 @@ import (
 	"math/rand"
 	"net/textproto"
 	"strings"
+	"sync"
 	"unicode/utf8"
 
 	"google.golang.org/protobuf/encoding/protojson"
@@ -78,6 +79,10 @@ type c10Case struct {
 	verb    string // raw
 	target  string
 	rawBody []byte
+	// family "error-size" (c10_size.go): the Coq term of the source, built with the model's generators instead
+	// of literals, and the size class label
+	coqSrc    string
+	sizeLabel string
 }
 
 var c10Customs = []*c10Custom{
@@ -345,6 +350,9 @@ func effectiveCT(clientCT string, callCT *string) string {
 }
 
 func (c *c10Case) coqSource() string {
+	if c.coqSrc != "" {
+		return c.coqSrc
+	}
 	switch c.srcKind {
 	case "handler":
 		return "SHandler (" + c.herr.coq() + ")"
@@ -848,6 +856,8 @@ func CheckC10(run *Run) {
 		n, r := c10TS(run, s)
 		tsCh <- tsOut{n, r}
 	}()
+	szCh := make(chan []*CaseResult, 1)
+	go func() { szCh <- c10Sizes(run, s, b) }()
 	raw, err := RunScenarios(s.Runner, scen, 8)
 	if err != nil {
 		run.Fatal("runner: %v", err)
@@ -891,6 +901,7 @@ func CheckC10(run *Run) {
 		cr.Apply(vs[i])
 		run.Results = append(run.Results, cr)
 	}
+	run.Results = append(run.Results, (<-szCh)...)
 	run.Results = append(run.Results, c10Order(run, s, b)...)
 	ts := <-tsCh
 	run.Results = append(run.Results, ts.res...)
@@ -1056,6 +1067,79 @@ func c10Cases(rng *rand.Rand, thorough bool) []*c10Case {
 		}
 	}
 	return out
+}
+
+// c10Sizes: error bodies of every size class through the Go client (cases: c10_size.go).
+func c10Sizes(run *Run, s *Session, b *Built) []*CaseResult {
+	cases := c10SizeCases(run.Tier == "thorough")
+	scen := make([]any, len(cases))
+	for i, c := range cases {
+		scen[i] = c.scenario(b, fmt.Sprint(i))
+	}
+	raw, err := RunScenarios(s.Runner, scen, 4)
+	if err != nil {
+		run.Fatal("runner (error sizes): %v", err)
+	}
+	var ccs []CoqCase
+	var results []*CaseResult
+	for i, c := range cases {
+		var o RunnerObsX
+		if err := json.Unmarshal(raw[i], &o); err != nil {
+			run.Fatal("bad observation (error sizes): %v", err)
+		}
+		if o.Error != "" {
+			run.Fatal("runner error on size case %d (%s): %s", i, c.sizeLabel, o.Error)
+		}
+		ob := c.observe(b, &o)
+		holds, note := true, ""
+		if o.Panic != "" {
+			holds, note = false, "panic: "+firstLine(o.Panic)
+		} else if o.Timeout {
+			holds, note = false, "timeout"
+		} else {
+			holds, note = oracleC10(c, b, ob)
+		}
+		if len(note) > 300 {
+			note = note[:300] + "…"
+		}
+		dig := c10Digest(Canon(ob))
+		cr := &CaseResult{ID: fmt.Sprintf("error-size/%s/%s#%d", c.sizeLabel, c.ct, i), Family: c.family, Input: c.sizeInput(),
+			Obs: dig, OracleHolds: holds, OracleNote: note, NonTrivial: true,
+			Features: []string{"src:" + c.srcKind, "ct:" + c.ct, "size:" + c.sizeLabel, "call"}}
+		results = append(results, cr)
+		ccs = append(ccs, CoqCase{Term: fmt.Sprintf("(%s, %s, %s)", c.coqSource(), c.hook.coq(), c.coqCT()), Obs: dig})
+	}
+	// the 200 KiB cases cost the model about a second each: small chunks evaluated side by side
+	vs := make([]CoqVerdict, len(ccs))
+	const chunk = 5
+	var wg sync.WaitGroup
+	var mu sync.Mutex
+	var firstErr error
+	for lo := 0; lo < len(ccs); lo += chunk {
+		hi := min(lo+chunk, len(ccs))
+		wg.Add(1)
+		go func(lo, hi int) {
+			defer wg.Done()
+			part, err := CoqRun(run.WorkDir, fmt.Sprintf("c10size%d", lo), "From Sebuf Require Import Text Json Schema Value Headers Errors.\n", "", "c10_case", "predict_C10_sized", ccs[lo:hi], 1)
+			mu.Lock()
+			defer mu.Unlock()
+			if err != nil {
+				if firstErr == nil {
+					firstErr = err
+				}
+				return
+			}
+			copy(vs[lo:hi], part)
+		}(lo, hi)
+	}
+	wg.Wait()
+	if firstErr != nil {
+		run.Fatal("model evaluation (error sizes): %v", firstErr)
+	}
+	for i, cr := range results {
+		cr.Apply(vs[i])
+	}
+	return results
 }
 
 // c10Order: requests on which several stages of the binding middleware fail at once (required header,
